@@ -395,6 +395,14 @@ func outputs(ws workspace, v variation) (out map[string]string) {
 	if err != nil {
 		out["format"] = "ERR " + err.Error()
 	} else {
+		// the unified diff `buf format -d` prints, over the (shuffled) source view
+		src := bufmodule.ModuleReadBucketToStorageReadBucket(bufmodule.ModuleSetToModuleReadBucketWithOnlyProtoFiles(ms))
+		if d, derr := storage.DiffBytes(ctx, shuffleBucket{src, v.walkSeed}, fb, storage.DiffWithSuppressTimestamps()); derr != nil {
+			out["format-diff"] = "ERR " + derr.Error()
+		} else {
+			hd := sha256.Sum256(d)
+			out["format-diff"] = fmt.Sprintf("%d bytes sha256=%s", len(d), hex.EncodeToString(hd[:]))
+		}
 		kvs, err := bk.WalkAll(ctx, fb, "")
 		if err != nil {
 			out["format"] = "ERR " + err.Error()
@@ -485,6 +493,134 @@ func describe(ws workspace) []string {
 		out = append(out, m.name+": "+strings.Join(ps, " "))
 	}
 	return out
+}
+
+// ---------------------------------------------------------------------------------------
+// Part D: several remote commits of one dependency, listed in every order
+
+// registry serves several commits of the same remote module (what conflicting buf.lock pins of
+// a v1 workspace amount to).
+type registry struct {
+	byCommit map[uuid.UUID]bufmoduletesting.OmniProvider
+}
+
+func (g *registry) GetModuleDatasForModuleKeys(ctx context.Context, keys []bufmodule.ModuleKey) ([]bufmodule.ModuleData, error) {
+	var out []bufmodule.ModuleData
+	for _, k := range keys {
+		p, ok := g.byCommit[k.CommitID()]
+		if !ok {
+			return nil, fmt.Errorf("unknown commit %v", k.CommitID())
+		}
+		one, err := p.GetModuleDatasForModuleKeys(ctx, []bufmodule.ModuleKey{k})
+		if err != nil {
+			return nil, err
+		}
+		out = append(out, one...)
+	}
+	return out, nil
+}
+
+func (g *registry) GetCommitsForModuleKeys(ctx context.Context, keys []bufmodule.ModuleKey) ([]bufmodule.Commit, error) {
+	var out []bufmodule.Commit
+	for _, k := range keys {
+		p, ok := g.byCommit[k.CommitID()]
+		if !ok {
+			return nil, fmt.Errorf("unknown commit %v", k.CommitID())
+		}
+		one, err := p.GetCommitsForModuleKeys(ctx, []bufmodule.ModuleKey{k})
+		if err != nil {
+			return nil, err
+		}
+		out = append(out, one...)
+	}
+	return out, nil
+}
+
+func (g *registry) GetCommitsForCommitKeys(ctx context.Context, keys []bufmodule.CommitKey) ([]bufmodule.Commit, error) {
+	var out []bufmodule.Commit
+	for _, k := range keys {
+		p, ok := g.byCommit[k.CommitID()]
+		if !ok {
+			return nil, fmt.Errorf("unknown commit %v", k.CommitID())
+		}
+		one, err := p.GetCommitsForCommitKeys(ctx, []bufmodule.CommitKey{k})
+		if err != nil {
+			return nil, err
+		}
+		out = append(out, one...)
+	}
+	return out, nil
+}
+
+func partD(run *hx.Run, r *hx.Rand) {
+	n := run.N(12, 150)
+	base := time.Date(2024, 1, 1, 0, 0, 0, 0, time.UTC)
+	for i := 0; i < n; i++ {
+		cr := r.Fork(uint64(i))
+		nc := 2 + cr.Intn(5)
+		reg := &registry{byCommit: map[uuid.UUID]bufmoduletesting.OmniProvider{}}
+		keys := make([]bufmodule.ModuleKey, nc)
+		times := make([]int, nc)
+		for c := 0; c < nc; c++ {
+			id := uuid.NewSHA1(uuid.NameSpaceURL, []byte(fmt.Sprintf("dep-%d-%d", i, c)))
+			times[c] = cr.Intn(4) // equal create times do occur
+			p := must(bufmoduletesting.NewOmniProvider(bufmoduletesting.ModuleData{
+				Name: "buf.build/acme/dep", CommitID: id, CreateTime: base.Add(time.Duration(times[c]) * 24 * time.Hour),
+				PathToData: map[string][]byte{"dep/dep.proto": []byte(fmt.Sprintf("syntax = \"proto3\";\npackage dep;\nmessage Dep { string v%d = 1; }\n", c+1))},
+			}))
+			mod := p.GetModuleForCommitID(id)
+			keys[c] = must(bufmodule.ModuleToModuleKey(mod, bufmodule.DigestTypeB5))
+			reg.byCommit[id] = p
+		}
+		local := must(storagemem.NewReadBucket(map[string][]byte{
+			"app/app.proto": []byte("syntax = \"proto3\";\npackage app;\nimport \"dep/dep.proto\";\nmessage App { dep.Dep dep = 1; }\n"),
+		}))
+		build := func(order []int) string {
+			b := bufmodule.NewModuleSetBuilder(ctx, logger, reg, reg)
+			b.AddLocalModule(local, "app", true)
+			for _, c := range order {
+				b.AddRemoteModule(keys[c], false)
+			}
+			ms, err := b.Build()
+			if err != nil {
+				return "ERR " + err.Error()
+			}
+			var chosen []string
+			for _, m := range ms.Modules() {
+				d, _ := m.Digest(bufmodule.DigestTypeB5)
+				chosen = append(chosen, fmt.Sprintf("%s@%s %v", m.OpaqueID(), m.CommitID(), d))
+			}
+			img, err := bufimage.BuildImage(ctx, logger, bufmodule.ModuleSetToModuleReadBucketWithOnlyProtoFiles(ms))
+			if err != nil {
+				return strings.Join(chosen, ";") + " IMAGE-ERR " + err.Error()
+			}
+			data := must(protoencoding.NewWireMarshaler().Marshal(must(bufimage.ImageToProtoImage(img))))
+			h := sha256.Sum256(data)
+			return strings.Join(chosen, ";") + " image=" + hex.EncodeToString(h[:8])
+		}
+		order := make([]int, nc)
+		for c := range order {
+			order[c] = c
+		}
+		ref := build(order)
+		for rep := 0; rep < 12; rep++ {
+			o := append([]int{}, order...)
+			if rep%3 != 0 {
+				hx.Shuffle(cr, o)
+			}
+			got := build(o)
+			run.Eval()
+			run.Distinct(fmt.Sprintf("D-%d-%d", i, rep))
+			run.Count("D:remote-commit-selection")
+			if got != ref {
+				run.Fail(hx.OracleFailure{Class: "nondeterministic-remote-commit-selection",
+					What:   fmt.Sprintf("%d commits of one remote module (create-time days %v): listing order %v gave\n%s\nbut order %v gave\n%s", nc, times, order, ref, o, got),
+					Input:  map[string]any{"commits": nc, "create_time_days": times, "order": o},
+					Replay: fmt.Sprintf("build/c02 --out /tmp/c02-replay --seed %d --tier %s", run.Seed, run.Tier)})
+				break
+			}
+		}
+	}
 }
 
 // ---------------------------------------------------------------------------------------
@@ -604,6 +740,7 @@ func main() {
 	partA(run, r.Fork(1))
 	if run.Only < 0 {
 		partB(run, r.Fork(2))
+		partD(run, r.Fork(4))
 		partC(run, r.Fork(3), tmpRoot)
 	} else {
 		partB(run, r.Fork(2))
